@@ -22,11 +22,11 @@ def main():
                 src = open(os.path.join(LEAN, "Blackbird", "Props", f2), encoding="utf-8").read()
                 names += re.findall(r"^theorem\s+(%s_[A-Za-z0-9_']+)" % pid, src, re.M)
                 imports.append("import Blackbird.Props.%s" % f2[:-5])
-        gen = os.path.join(LEAN, "GenProps", fn)
-        if os.path.exists(gen):
-            gsrc = open(gen, encoding="utf-8").read()
-            names += re.findall(r"^theorem\s+(%s_[A-Za-z0-9_']+)" % pid, gsrc, re.M)
-            imports.append("import GenProps.%s" % pid)
+        for g2 in sorted(os.listdir(os.path.join(LEAN, "GenProps"))):
+            if re.fullmatch(pid + r"[A-Za-z]*\.lean", g2):
+                gsrc = open(os.path.join(LEAN, "GenProps", g2), encoding="utf-8").read()
+                names += re.findall(r"^theorem\s+(%s_[A-Za-z0-9_']+)" % pid, gsrc, re.M)
+                imports.append("import GenProps.%s" % g2[:-5])
         with open(os.path.join(LEAN, "Audit", pid + ".lean"), "w", encoding="utf-8") as f:
             f.write("\n".join(imports) + "\n")
             for n in names:
